@@ -18,6 +18,7 @@ package files
 
 import (
 	"context"
+	"errors"
 	"fmt"
 	"log"
 	"os"
@@ -47,6 +48,8 @@ type enumerateError struct {
 func (ee *enumerateError) Error() string {
 	return fmt.Sprintf("files enumerate error: %s: %v", ee.msg, ee.err)
 }
+
+func (ee *enumerateError) Unwrap() error { return ee.err }
 
 // readBlobs implements EnumerateBlobs. It calls itself recursively on subdirectories.
 func (ds *Storage) readBlobs(ctx context.Context, opts readBlobRequest) error {
@@ -106,6 +109,11 @@ func (ds *Storage) readBlobs(ctx context.Context, opts readBlobRequest) error {
 		isDir := isShardDir(name)
 		if !isDir {
 			fi, err := stat[name].Get()
+			if errors.Is(err, os.ErrNotExist) {
+				// Gone since the directory was read: the temporary file
+				// of an upload which finished, or a blob just removed.
+				continue
+			}
 			if err != nil {
 				return err
 			}
